@@ -83,7 +83,7 @@ func main() {
 			}
 			vcs = append(vcs, vc)
 		}
-		rs := solveAll(vcs, solveOpts{workDir: work, quickS: 3, fullS: 10, parallel: runtime.NumCPU()})
+		rs := solveAll(vcs, solveOpts{workDir: work, quickS: 4, fullS: 10, parallel: (runtime.NumCPU() + 1) / 2})
 		bad := 0
 		for _, r := range rs {
 			ok := r.Status == "unsat"
